@@ -124,6 +124,9 @@ class World:
         self.kinds = {}
         self.sched_trace = []
         self.max_skew = 0
+        self.mail = {}
+        self.blocked_p2p = {}
+        self.n_p2p = 0
 
     # ---- rank-thread side -------------------------------------------
     def _park(self):
@@ -244,6 +247,27 @@ class World:
             return pickle.loads(inst.result)
         raise RuntimeError('unknown collective ' + kind)
 
+    def p2p_send(self, dest, tag, data):
+        r = self.cur
+        if not (0 <= dest < self.n):
+            self._fail(SimViolation('bad_destination', 'rank %d sends to rank %d in a world of %d' % (r, dest, self.n)))
+        self.mail.setdefault((r, dest, tag), []).append(data)
+        self.n_p2p += 1
+        if self.digest is not None:
+            self.digest.ev('send', r, dest, tag, len(data))
+        # a send is also a point where another rank may run
+        self.p2p_wait = None
+        self.blocked_p2p.pop(r, None)
+
+    def p2p_recv(self, source, tag):
+        r = self.cur
+        key = (source, r, tag)
+        while not self.mail.get(key):
+            self.blocked_p2p[r] = key
+            self._park()
+        self.blocked_p2p.pop(r, None)
+        return self.mail[key].pop(0)
+
     def _fail(self, exc):
         # called on a rank thread: record and unwind this rank
         self.err.setdefault('world', exc)
@@ -285,11 +309,13 @@ class World:
                 if self.err:
                     break
                 runnable = [r for r in range(n) if r not in self.done and
-                            (r not in started or (r in self.blocked and self._ready(self.blocked[r], r)))]
+                            (r not in started or (r in self.blocked and self._ready(self.blocked[r], r)) or
+                             (r in self.blocked_p2p and self.mail.get(self.blocked_p2p[r])))]
                 if not runnable:
                     if len(self.done) == n:
                         break
                     waiting = {r: (self.blocked[r].kind, self.blocked[r].k) for r in self.blocked}
+                    waiting.update({r: ('recv', k_) for r, k_ in self.blocked_p2p.items()})
                     self.err['world'] = SimViolation(
                         'deadlock', 'finished ranks %s; blocked ranks %s' % (sorted(self.done), waiting))
                     break
@@ -386,6 +412,86 @@ class Comm:
 
     barrier = Barrier
 
+    # ---- buffer-based variants (numpy arrays, optionally as [buf, datatype] specs) -------------------
+    @staticmethod
+    def _buf(spec):
+        if isinstance(spec, (list, tuple)) and spec and isinstance(spec[0], np.ndarray):
+            return spec[0]
+        return spec
+
+    def Allreduce(self, sendbuf, recvbuf, op=SUM):
+        send, recv = self._buf(sendbuf), self._buf(recvbuf)
+        if send is IN_PLACE:
+            send = recv
+        out = self.allreduce(np.array(send, copy=True), op)
+        np.copyto(recv, np.asarray(out).reshape(recv.shape))
+
+    def Allgather(self, sendbuf, recvbuf):
+        send, recv = self._buf(sendbuf), self._buf(recvbuf)
+        parts = self.allgather(np.array(send, copy=True))
+        flat = np.concatenate([np.asarray(p).reshape(-1) for p in parts])
+        if flat.nbytes != recv.nbytes:
+            raise ValueError('Allgather: receive buffer has %d bytes, %d gathered' % (recv.nbytes, flat.nbytes))
+        np.copyto(recv.reshape(-1), flat.astype(recv.dtype, copy=False))
+
+    def Gather(self, sendbuf, recvbuf, root=0):
+        send = self._buf(sendbuf)
+        parts = self.allgather(np.array(send, copy=True))
+        if self.Get_rank() == root:
+            recv = self._buf(recvbuf)
+            np.copyto(recv.reshape(-1), np.concatenate([np.asarray(p).reshape(-1) for p in parts]))
+
+    def Reduce(self, sendbuf, recvbuf, op=SUM, root=0):
+        send = self._buf(sendbuf)
+        out = self.allreduce(np.array(send, copy=True), op)
+        if self.Get_rank() == root:
+            recv = self._buf(recvbuf)
+            np.copyto(recv, np.asarray(out).reshape(recv.shape))
+
+    def scatter(self, sendobj=None, root=0):
+        items = self.bcast(sendobj if self.Get_rank() == root else None, root=root)
+        return items[self.Get_rank()]
+
+    def Scatter(self, sendbuf, recvbuf, root=0):
+        send = self._buf(sendbuf) if self.Get_rank() == root else None
+        full = self.bcast(None if send is None else np.array(send, copy=True), root=root)
+        recv = self._buf(recvbuf)
+        n = self.Get_size()
+        np.copyto(recv.reshape(-1), np.asarray(full).reshape(n, -1)[self.Get_rank()])
+
+    def alltoall(self, sendobj):
+        rows = self.allgather(list(sendobj))
+        return [rows[q][self.Get_rank()] for q in range(self.Get_size())]
+
+    # ---- point to point (buffered sends; a receive blocks until a matching message exists) ------------
+    def send(self, obj, dest, tag=0):
+        w = _WORLD
+        if w is None:
+            raise ValueError('send in a world of size one')
+        w.p2p_send(int(dest), int(tag), pickle.dumps(obj, protocol=pickle.HIGHEST_PROTOCOL))
+
+    def recv(self, buf=None, source=0, tag=0, status=None):
+        w = _WORLD
+        if w is None:
+            raise ValueError('recv in a world of size one')
+        return pickle.loads(w.p2p_recv(int(source), int(tag)))
+
+    def Send(self, buf, dest, tag=0):
+        b = self._buf(buf)
+        self.send((np.ascontiguousarray(b).tobytes(), b.dtype.str, b.shape), dest, tag)
+
+    def Recv(self, buf, source=0, tag=0, status=None):
+        b = self._buf(buf)
+        raw, dt, shp = self.recv(source=source, tag=tag)
+        if len(raw) != b.nbytes:
+            w = _WORLD
+            w._fail(SimViolation('recv_size_mismatch', 'Recv of %d bytes into a buffer of %d bytes' % (len(raw), b.nbytes)))
+        b.reshape(-1).view(np.uint8)[:] = np.frombuffer(raw, dtype=np.uint8)
+
+    def sendrecv(self, sendobj, dest, sendtag=0, recvbuf=None, source=0, recvtag=0, status=None):
+        self.send(sendobj, dest, sendtag)
+        return self.recv(source=source, tag=recvtag)
+
     def gather(self, obj, root=0):
         allv = self.allgather(obj)
         return allv if self.Get_rank() == root else None
@@ -406,7 +512,20 @@ def _check_root(root, n):
         raise ValueError('invalid root %r in world of size %d' % (root, n))
 
 
+class _InPlace:
+    def __repr__(self):
+        return 'MPI.IN_PLACE'
+
+
+IN_PLACE = _InPlace()
 COMM_WORLD = Comm()
+_WTIME = [0.0]
+
+
+def Wtime():
+    """simulated wall clock: advances by a fixed tick per call, never reads a real clock"""
+    _WTIME[0] += 1e-3
+    return _WTIME[0]
 
 
 def install():
@@ -418,6 +537,13 @@ def install():
     M.COMM_WORLD = COMM_WORLD
     M.SUM, M.MAX, M.MIN, M.PROD = SUM, MAX, MIN, PROD
     M.Get_processor_name = lambda: 'simnode'
+    M.IN_PLACE = IN_PLACE
+    M.Wtime = Wtime
+    M.ANY_SOURCE, M.ANY_TAG = -1, -1
+    for _n in ('DOUBLE', 'FLOAT', 'INT', 'LONG', 'INT64_T', 'INT32_T', 'BOOL', 'BYTE', 'CHAR', 'UNSIGNED', 'UNSIGNED_LONG'):
+        setattr(M, _n, _n)
+    M.Comm = Comm
+    M.Intracomm = Comm
     M.__simmpi__ = True
     m.MPI = M
     m.__simmpi__ = True
